@@ -688,7 +688,13 @@ pub fn run(prop: &str, tier: &str, seed: i64) -> Outcome {
         "C16" => (core_spaces(tier, seed, true), Box::new(c16_visit), "every state as loaded / reached by push / reached by push_history / after push-pop excursions / after one and two push_history steps: score() == piece-square sum with the king table in force; mirror negation; route independence"),
         _ => unreachable!(),
     };
-    let (acc, reports) = run_spaces(&spaces, &*visitor);
+    let (mut acc, mut reports) = run_spaces(&spaces, &*visitor);
+    if prop == "C01" {
+        match real_perft_stage(&mut acc) {
+            Some(r) => reports.push(r),
+            None => acc.errors.push("VERIF_REAL_BIN not set or missing: the real-binary perft stage was not run".into()),
+        }
+    }
     let mut out = Outcome::new(acc, reports, rule);
     out.traces_validated = out.acc.transitions;
     out.assumptions = common_assumptions();
@@ -709,8 +715,92 @@ pub fn run(prop: &str, tier: &str, seed: i64) -> Outcome {
     out
 }
 
+/// C01 through the REAL binary's command line (`rustybait perft <d> <fen> [moves..]`, the property's second
+/// observation point; binds main.rs and the release build to what the explorers check in-process): the divide output
+/// must list exactly the model's legal moves with the model's subtree counts.
+pub fn real_perft_stage(acc: &mut Acc) -> Option<SpaceReport> {
+    let bin = crate::realbin::real_bin()?;
+    let t0 = std::time::Instant::now();
+    let ep_root = "rnbqkbnr/ppp1p1pp/8/3pPp2/8/8/PPPP1PPP/RNBQKBNR w KQkq f6 0 3";
+    let cases: Vec<(&str, u32, Vec<&str>)> = vec![
+        (ROOT_START, 1, vec![]), (ROOT_START, 2, vec![]), (ROOT_START, 3, vec![]), (ROOT_START, 2, vec!["e2e4", "d7d5", "e4e5", "f7f5"]),
+        (ROOT_KIWI, 1, vec![]), (ROOT_KIWI, 2, vec![]), (ROOT_KIWI, 2, vec!["e1g1"]), (ROOT_KIWI, 2, vec!["e1c1", "e8g8"]),
+        (ROOT_P3, 1, vec![]), (ROOT_P3, 3, vec![]), (ROOT_P4, 2, vec![]), (ROOT_P5, 2, vec![]), (ROOT_P6, 2, vec![]),
+        (ROOT_PROMO, 1, vec![]), (ROOT_PROMO, 2, vec![]), (ROOT_PROMO, 2, vec!["g2h1n"]), (ROOT_RIGHTS, 2, vec![]), (ROOT_RIGHTS, 2, vec!["b7a8q"]),
+        (ep_root, 1, vec![]), (ep_root, 2, vec![]), (ep_root, 2, vec!["e5f6"]), (ROOT_KRK, 2, vec![]), (ROOT_KPK, 3, vec![]),
+    ];
+    let n = cases.len();
+    let res = par_items(&cases, &|_, (fen, d, mvs), acc| {
+        acc.states += 1;
+        acc.evaluations += 1;
+        let Ok(parsed) = parse_fen_strict(fen) else { return };
+        let mut p = parsed.pos.normalised();
+        for t in mvs {
+            let Some(m) = p.legal().into_iter().find(|m| &m.uci() == t) else { return };
+            p = p.apply(&m).normalised();
+        }
+        let mut want: Vec<(String, u64)> = p.legal().iter().map(|m| (m.uci(), if *d > 1 { perft(&p.apply(m).normalised(), d - 1) } else { 1 })).collect();
+        want.sort();
+        let total: u64 = want.iter().map(|x| x.1).sum();
+        let mut cmd = std::process::Command::new(&bin);
+        cmd.arg("perft").arg(d.to_string()).arg(fen);
+        for t in mvs {
+            cmd.arg(t);
+        }
+        let key = format!("real-perft|{}|{}|{}", fen, d, mvs.join(" "));
+        let replay = json::obj(vec![("kind", json::s("c01-real-perft"))]);
+        let out = match cmd.stdin(std::process::Stdio::null()).output() {
+            Ok(o) => o,
+            Err(e) => {
+                acc.errors.push(format!("cannot run {}: {}", bin, e));
+                return;
+            }
+        };
+        let text = String::from_utf8_lossy(&out.stdout).to_string();
+        if !out.status.success() {
+            acc.violation(key, format!("`rustybait perft {} \"{}\" {}` exited with {:?}: {}", d, fen, mvs.join(" "), out.status.code(), String::from_utf8_lossy(&out.stderr).lines().last().unwrap_or("")), replay);
+            return;
+        }
+        // the divide block is the tail of the output: `<move>: <count>` lines, an empty line, the total
+        let lines: Vec<&str> = text.lines().collect();
+        let mut got: Vec<(String, u64)> = vec![];
+        let mut got_total = None;
+        for l in lines.iter().rev() {
+            if got_total.is_none() {
+                if let Ok(t) = l.trim().parse::<u64>() {
+                    got_total = Some(t);
+                }
+                continue;
+            }
+            if l.trim().is_empty() && got.is_empty() {
+                continue;
+            }
+            match l.split_once(": ") {
+                Some((m, c)) if m.len() <= 5 && c.trim().parse::<u64>().is_ok() => got.push((m.to_string(), c.trim().parse().unwrap())),
+                _ => break,
+            }
+        }
+        got.sort();
+        acc.transitions += want.len() as u64;
+        if got != want || got_total != Some(total) {
+            let missing: Vec<&(String, u64)> = want.iter().filter(|x| !got.contains(x)).collect();
+            let extra: Vec<&(String, u64)> = got.iter().filter(|x| !want.contains(x)).collect();
+            acc.violation(key, format!("`rustybait perft {} \"{}\" {}`: divide differs from the legal moves / subtree counts of the rules: missing {:?}, extra {:?}, total {:?} (rules: {})", d, fen, mvs.join(" "), missing, extra, got_total, total), replay);
+        } else {
+            acc.outcome("real binary perft divide equals the rules");
+        }
+    });
+    acc.merge(res);
+    Some(SpaceReport { name: format!("real binary {}: `perft <d> <fen> [moves]` divide output for {} (root, depth, move prefix) cases against the model's legal moves and subtree counts", bin, n), states: n as u64, exhaustive: true, note: format!("[{:.1}s]", t0.elapsed().as_secs_f64()) })
+}
+
 /// re-run one state through a property's visitor (for --replay)
 pub fn replay_state(prop: &str, j: &J) -> Result<Acc, String> {
+    if j.get("kind").and_then(|x| x.as_str()) == Some("c01-real-perft") {
+        let mut acc = Acc::new();
+        real_perft_stage(&mut acc);
+        return Ok(acc);
+    }
     let fen = j.get("fen").and_then(|x| x.as_str()).ok_or("replay lacks fen")?;
     let pos = parse_fen_strict(fen)?.pos.normalised();
     let rootp = match j.get("root").and_then(|x| x.as_str()) {
